@@ -51,6 +51,10 @@ std::pair<bool, long long> AbacusLegalizer::evaluatePlacement(int cell,
 }
 
 void AbacusLegalizer::placeCell(int cell) {
+  if (rows_.empty()) {
+    // No space left at all: the cell stays unplaced
+    return;
+  }
   /**
    * Simple algorithm that tries close row first and stops early if no
    * improvement can be found
